@@ -43,7 +43,8 @@ def date_input(o, tag):
         o.cut("flags_shape" + tag, z3.And(fe >= 1, fe < 16, (fe < 8) == is_leap(y.e)))
     else:
         o.cut("flags_shape" + tag, z3.And(fe >= 1, fe < 16, (fe < 8) == is_leap(y.e)), splits=[y.e % 400 == a for a in range(400)])
-    date = Agg("struct", "NaiveDate", [IntV(y.e * 8192 + d.e * 16 + fe, "i32")])
+    # field 0 is the packed word the code sees; fields 1, 2 are ghost copies of (year, ordinal) for the contracts
+    date = Agg("struct", "NaiveDate", [IntV(y.e * 8192 + d.e * 16 + fe, "i32"), y, d])
     yr = o.call("NaiveDate::year", o.ref(date), name="year" + tag)
     od = o.call("NaiveDate::ordinal", o.ref(date), name="ordinal" + tag)
     o.cut("year_accessor" + tag, yr.e == y.e)
@@ -60,6 +61,18 @@ def ghost_from_ordinal_and_flags(ex, st, args):
     return st2, v
 
 
+def contract_from_ordinal_and_flags(ex, st, args):
+    """contract of NaiveDate::from_ordinal_and_flags proved by M:c01_m_from_ordinal_and_flags (flags: 4 bits, weekday part
+    non-zero): Some exactly for year in range and 1 <= ordinal <= 365 (366 when the leap bit is clear); packed word =
+    year*8192 + ordinal*16 + flags. The result carries the ghost (year, ordinal)."""
+    yr, od, fl = args[0].e, args[1].e, args[2].fields[0].e
+    pre = z3.And(fl >= 1, fl <= 15, fl % 8 != 0)
+    ex.panics.append((z3.And(st.pc, z3.Not(pre)), "from_ordinal_and_flags called with flags outside its contract", "from_ordinal_and_flags"))
+    ok = z3.And(yr >= MINY, yr <= MAXY, od >= 1, od <= z3.If(fl < 8, 366, 365))
+    date = Agg("struct", "NaiveDate", [IntV(yr * 8192 + od * 16 + fl, "i32"), IntV(yr, "i32"), IntV(od, "u32")])
+    return st, EnumV("Option", z3.If(ok, 1, 0), {1: [date]})
+
+
 def ghost_from_yof(ex, st, args):
     st2, d = ex.exec_real("NaiveDate::from_yof", st, args)
     yof = args[0].e
@@ -67,11 +80,13 @@ def ghost_from_yof(ex, st, args):
 
 
 def use_ghosts(o):
-    o.summarize("naive::date::from_ordinal_and_flags", ghost_from_ordinal_and_flags)
+    o.summarize("naive::date::from_ordinal_and_flags", contract_from_ordinal_and_flags)
     o.summarize("naive::date::from_yof", ghost_from_yof)
 
 
 def decode(o, date, tag):
+    if len(date.fields) == 3:      # ghost (year, ordinal) attached by a contract
+        return date.fields[1].e, date.fields[2].e
     yof = date.fields[0].e
     Y, O, F = z3.Int("Y" + tag), z3.Int("O" + tag), z3.Int("F" + tag)
     o.require(z3.And(yof == Y * 8192 + O * 16 + F, F >= 0, F < 16, O >= 0, O < 512))
@@ -89,65 +104,91 @@ def tdiv(v, u):
     return z3.If(v >= 0, v / u, -((-v) / u))
 
 
-@obligation(prop="C03", tier="thorough", timeout=1500, probe="date_add_days",
+@obligation(prop="C03", tier="quick", timeout=900, probe="date_add_days",
             desc="NaiveDate::add_days(k) (the kernel behind checked_add_days/sub_days/checked_add_signed): Some exactly when daynumber+k is the day number of a representable date, and then the result is the valid date with exactly that day number (same-year fast path and 400-year-cycle path)",
             bounds="all dates x all i32 day counts; cycle kernels via their proved contracts")
 def c03_m_add_days(o):
     c01.use_flags_contract(o)
     c01.use_cycle_contracts(o)
     c01.periodicity(o)
+    c01.cycle_lemmas(o)
     y, d, date = date_input(o, "")
     k = o.input("k", "i32")
     use_ghosts(o)
+    base = dayno(y.e, d.e)
+    tgt = base + k.e
+    fast = z3.And(d.e + k.e >= 1, d.e + k.e <= z3.If(is_leap(y.e), 366, 365))
+    # --- ghost replay of the cycle path's own intermediate terms (pure calls: identical arguments give identical terms).
+    #     Done before the real call so that the facts about these terms are also available on the real call's panic edges.
+    yr = o.call("NaiveDate::year", o.ref(date), name="year_again", ghost=True)
+    dm = o.call("div_mod_floor", yr, IntV(400, "i32"), name="dm400", ghost=True)
+    e0c, r0c = dm.fields[0].e, dm.fields[1].e
+    o.cut("year_split", z3.And(y.e == 400 * e0c + r0c, r0c >= 0, r0c <= 399))
+    od = o.call("NaiveDate::ordinal", o.ref(date), name="ord_again", ghost=True)
+    c0 = o.call("yo_to_cycle", o.cast(dm.fields[1], "u32"), od, name="c0", ghost=True)
+    o.use_lemma("dayno_periodic", e0c, r0c, d.e)
+    o.use_lemma("dayno_periodic", e0c, r0c, d.e + k.e)
+    o.use_lemma("leap_periodic", e0c, r0c)
+    o.use_lemma("cyc_bounds", r0c, d.e)
+    o.use_lemma("cyc_bounds", r0c, d.e + k.e)
+    o.cut("cycle0", z3.And(c0.e == c01.cyc(r0c, d.e), c0.e >= 0, c0.e <= 146096))
+    o.cut("target_in_cycle_terms", tgt + 365 == 146097 * e0c + c0.e + k.e)
+    c1 = o.call("core::num::<impl i32>::checked_add", o.cast(c0, "i32"), k, name="c1", ghost=True)
+    inrange_c1 = opt_is_some(c1)
+    c1v = opt_payload(c1)
+    dm2 = o.call("div_mod_floor", c1v, IntV(146097, "i32"), name="dm146097", ghost=True, when=inrange_c1)
+    cdc, cc = dm2.fields[0].e, dm2.fields[1].e
+    yo = o.call("cycle_to_yo", o.cast(dm2.fields[1], "u32"), name="yo", ghost=True, when=inrange_c1)
+    ymp, op_ = yo.fields[0].e, yo.fields[1].e
+    o.cut("cycle_split", z3.Implies(inrange_c1, z3.And(c0.e + k.e == 146097 * cdc + cc, cc >= 0, cc <= 146096)))
+    o.cut("cycle_to_yo_contract", z3.Implies(inrange_c1, z3.And(ymp >= 0, ymp <= 399, op_ >= 1, op_ <= z3.If(is_leap(ymp), 366, 365), c01.cyc(ymp, op_) == cc)))
+    # --- the function under test
     r = o.call("NaiveDate::add_days", date, k, name="add_days")
     some = opt_is_some(r)
     res = opt_payload(r)
     Y, O = res.fields[1].e, res.fields[2].e      # ghost fields: the (year, ordinal) the constructor packed
-    yofr = res.fields[0].e
+    # (the ghost fields equal the packed fields by M:c01_m_from_ordinal_and_flags)
     o.flat = [z3.If(some, 1, 0), z3.If(some, Y, 0), z3.If(some, O, 0)]
     o.no_panic()
-    # (the ghost fields equal the packed fields by M:c01_m_from_ordinal_and_flags)
-    base = dayno(y.e, d.e)
-    tgt = base + k.e
     o.reachable("fast_path", z3.And(some, Y == y.e, k.e != 0))
     o.reachable("other_year", z3.And(some, Y != y.e))
     o.reachable("none", z3.Not(some))
-    c01.cycle_lemmas(o)
-    e0 = y.e / 400
-    r0 = y.e - 400 * e0
-    o.use_lemma("dayno_periodic", e0, r0, d.e)
-    o.use_lemma("dayno_periodic", e0, r0, d.e + k.e)
-    o.use_lemma("leap_periodic", e0, r0)
-    o.use_lemma("cyc_bounds", r0, d.e)
-    o.use_lemma("cyc_bounds", r0, d.e + k.e)
-    er = (tgt + 365) / 146097
-    fast = z3.And(d.e + k.e >= 1, d.e + k.e <= z3.If(is_leap(y.e), 366, 365))
     o.cut("fast_path_result", z3.Implies(fast, z3.And(some, Y == y.e, O == d.e + k.e)))
-    # the cycle path, step by step (each step is proved, then available to the next)
-    cyc0 = c01.cyc(r0, d.e)
-    cd = (cyc0 + k.e) / 146097
-    o.cut("target_in_cycle_terms", tgt + 365 == 146097 * e0 + cyc0 + k.e)
-    o.cut("era_formula", er == e0 + cd)
-    o.cut("result_year_in_its_era", z3.Implies(z3.And(some, z3.Not(fast)), z3.And(Y - 400 * (e0 + cd) >= 0, Y - 400 * (e0 + cd) <= 399)))
-    o.cut("year_in_era", z3.Implies(some, z3.And(Y - 400 * er >= 0, Y - 400 * er <= 399)), splits=[fast, z3.Not(fast)])
-    rr = Y - 400 * er
-    o.cut("result_in_cycle", z3.Implies(z3.And(some, z3.Not(fast)), c01.cyc(rr, O) == cyc0 + k.e - 146097 * cd))
-    o.cut("result_ordinal_valid", z3.Implies(z3.And(some, z3.Not(fast)), z3.And(O >= 1, O <= z3.If(is_leap(rr), 366, 365))))
-    o.use_lemma("cyc_bounds", rr, O)
-    o.use_lemma("leap_periodic", er, rr)
-    o.use_lemma("dayno_periodic", er, Y - 400 * er, O)
-    o.claim("exact", z3.Implies(some, z3.And(dayno(Y, O) == tgt, Y >= MINY, Y <= MAXY, O >= 1, O <= z3.If(is_leap(Y), 366, 365))))
-    o.claim("some_implies_in_range", z3.Implies(some, z3.And(tgt >= LO, tgt <= HI)))
-    o.claim("in_range_implies_some", z3.Implies(z3.And(tgt >= LO, tgt <= HI), some))
+    o.cut("result_fields", z3.Implies(z3.And(some, z3.Not(fast)), z3.And(inrange_c1, Y == (e0c + cdc) * 400 + ymp, O == op_)))
+    o.cut("none_reasons", z3.Implies(z3.And(z3.Not(some), z3.Not(fast)), z3.Or(z3.Not(inrange_c1), (e0c + cdc) * 400 + ymp < MINY, (e0c + cdc) * 400 + ymp > MAXY)))
+    o.use_lemma("dayno_periodic", e0c + cdc, ymp, op_)
+    o.use_lemma("leap_periodic", e0c + cdc, ymp)
+    Ym, Om = z3.Ints("lemY lemO")
+    o.lemma("beyond_max", [Ym, Om], z3.Implies(z3.And(Ym > MAXY, Om >= 1), dayno(Ym, Om) > HI))
+    o.lemma("before_min", [Ym, Om], z3.Implies(z3.And(Ym < MINY, Om <= 366), dayno(Ym, Om) < LO))
+    o.use_lemma("beyond_max", (e0c + cdc) * 400 + ymp, op_)
+    o.use_lemma("before_min", (e0c + cdc) * 400 + ymp, op_)
+    sp = [fast, z3.Not(fast)]
+    # Stated on the code's own year/ordinal terms of each path; together with the `result_fields` / `fast_path_result`
+    # equalities (Y == Yc, O == Oc) this is `dayno(Y, O) == tgt` by substitution of equals.
+    Yc = (e0c + cdc) * 400 + ymp
+    nf = z3.And(some, z3.Not(fast))
+    o.claim("exact_fast_path", z3.Implies(fast, z3.And(some, Y == y.e, O == d.e + k.e, dayno(y.e, d.e + k.e) == tgt)))
+    o.claim("exact_cycle_path", z3.Implies(nf, z3.And(Y == Yc, O == op_, dayno(Yc, op_) == tgt, Yc >= MINY, Yc <= MAXY,
+                                                     op_ >= 1, op_ <= z3.If(is_leap(Yc), 366, 365))))
+    o.claim("some_implies_in_range", z3.Implies(some, z3.And(tgt >= LO, tgt <= HI)), splits=sp)
+    o.claim("in_range_implies_some", z3.Implies(z3.And(tgt >= LO, tgt <= HI), some), splits=sp)
+
+
+def ghost_or_decode(ex, d, tag):
+    if len(d.fields) == 3:
+        return d.fields[1].e, d.fields[2].e
+    yof = d.fields[0].e
+    Y0, O0, F0 = ex.fresh("Y" + tag), ex.fresh("O" + tag), ex.fresh("F" + tag)
+    ex.side.append(z3.And(yof == Y0 * 8192 + O0 * 16 + F0, F0 >= 0, F0 < 16, O0 >= 0, O0 < 512))
+    return Y0, O0
 
 
 def sum_add_days(ex, st, args):
     """contract of NaiveDate::add_days proved by M:c03_m_add_days"""
     d = ex.load(st, args[0])
     k = args[1].e
-    yof = d.fields[0].e
-    Y0, O0, F0 = ex.fresh("Y0"), ex.fresh("O0"), ex.fresh("F0")
-    ex.side.append(z3.And(yof == Y0 * 8192 + O0 * 16 + F0, F0 >= 0, F0 < 16, O0 >= 0, O0 < 512))
+    Y0, O0 = ghost_or_decode(ex, d, "0")
     tgt = dayno(Y0, O0) + k
     ok = z3.And(tgt >= LO, tgt <= HI)
     Y, O, F, nyof = ex.fresh("Y1"), ex.fresh("O1"), ex.fresh("F1"), ex.fresh("yof1")
@@ -180,7 +221,7 @@ def c03_m_days_u64(o):
                                    z3.Implies(opt_is_some(rs), z3.And(dayno(Ys, Os) == base - n.e, Os >= 1, Os <= z3.If(is_leap(Ys), 366, 365)))))
 
 
-@obligation(prop="C03", tier="thorough", timeout=900, probe="date_add_signed",
+@obligation(prop="C03", tier="quick", timeout=900, probe="date_add_signed",
             desc="NaiveDate::checked_add_signed / checked_sub_signed move the date by exactly the duration's whole days truncated toward zero, or return None exactly when that day is not representable; NaiveDate::signed_duration_since is exactly (daynumber difference) days, so b + (a - b) == a",
             bounds="all dates x all in-range TimeDeltas; all pairs of dates; add_days via its proved contract")
 def c03_m_date_signed(o):
@@ -192,21 +233,181 @@ def c03_m_date_signed(o):
     td, v = td_input(o, "d")
     ra = o.call("NaiveDate::checked_add_signed", date, td, name="add")
     rs = o.call("NaiveDate::checked_sub_signed", date, td, name="sub")
-    diff = o.call("NaiveDate::signed_duration_since", date, date2, name="diff")
     Ya, Oa = decode(o, opt_payload(ra), "a")
     Ys, Os = decode(o, opt_payload(rs), "s")
     o.flat = [z3.If(opt_is_some(ra), 1, 0), z3.If(opt_is_some(ra), Ya, 0), z3.If(opt_is_some(ra), Oa, 0),
-              z3.If(opt_is_some(rs), 1, 0), z3.If(opt_is_some(rs), Ys, 0), z3.If(opt_is_some(rs), Os, 0),
-              diff.fields[0].e, diff.fields[1].e]
+              z3.If(opt_is_some(rs), 1, 0), z3.If(opt_is_some(rs), Ys, 0), z3.If(opt_is_some(rs), Os, 0)]
     o.no_panic()
     base = dayno(y.e, d.e)
     days = tdiv(v, DAY * G)
+    nd = o.call("TimeDelta::num_days", o.ref(td), name="num_days")   # the code's own term for the whole days
+    o.cut("num_days_truncates", nd.e == days, splits=[v >= 0, v < 0])
     o.reachable("neg_fraction_of_day", z3.And(v < 0, v % (DAY * G) != 0, opt_is_some(ra)))
     o.reachable("none", z3.Not(opt_is_some(ra)))
+    c01.cycle_lemmas(o)
     for tag, e_, yy, dd in (("", y.e / 400, y.e, d.e), ("b", y2.e / 400, y2.e, d2.e)):
-        o.use_lemma("dayno_periodic", e_, yy - 400 * e_, dd)
+        o.cut("year_split" + tag, yy == 400 * e_ + yy % 400)
+        o.use_lemma("dayno_periodic", e_, yy % 400, dd)
+        o.use_lemma("cyc_bounds", yy % 400, dd)
+        o.use_lemma("leap_periodic", e_, yy % 400)
     o.claim("add_some_iff", opt_is_some(ra) == z3.And(base + days >= LO, base + days <= HI))
     o.claim("add_exact", z3.Implies(opt_is_some(ra), z3.And(dayno(Ya, Oa) == base + days, Oa >= 1, Oa <= z3.If(is_leap(Ya), 366, 365))))
     o.claim("sub_some_iff", opt_is_some(rs) == z3.And(base - days >= LO, base - days <= HI))
     o.claim("sub_exact", z3.Implies(opt_is_some(rs), z3.And(dayno(Ys, Os) == base - days, Os >= 1, Os <= z3.If(is_leap(Ys), 366, 365))))
-    o.claim("difference_exact", diff.fields[0].e * G + diff.fields[1].e == (base - dayno(y2.e, d2.e)) * DAY * G)
+
+
+def sum_weekday(ex, st, args):
+    """contract of NaiveDate::weekday proved by M:c01_m_weekday"""
+    d = ex.load(st, args[0])
+    Y, O = ghost_or_decode(ex, d, "w")
+    return st, EnumV("Weekday", (dayno(Y, O) - 1) % 7)
+
+
+@obligation(prop="C08", tier="quick", timeout=600, probe="week_bounds",
+            desc="NaiveWeek::checked_first_day / checked_last_day: the first day is the date minus ((weekday - start) mod 7) days, the last day six days after the first; each is None exactly when that day is not representable; hence the first day falls on the chosen start weekday at most six days before the date and the week spans seven days",
+            bounds="all dates x all 7 start weekdays; add_days and weekday through their proved contracts (M:c03_m_add_days, M:c01_m_weekday)")
+def c08_m_week_bounds(o):
+    o.summarize("naive::date::add_days", sum_add_days)
+    o.summarize("naive::date::weekday", sum_weekday)
+    y, d, date = date_input(o, "")
+    st = o.input("start", "u8")
+    o.require(st.e <= 6)
+    week = Agg("struct", "NaiveWeek", [date, EnumV("Weekday", st.e)])
+    f = o.call("NaiveWeek::checked_first_day", o.ref(week), name="first")
+    l = o.call("NaiveWeek::checked_last_day", o.ref(week), name="last")
+    Yf, Of = decode(o, opt_payload(f), "f")
+    Yl, Ol = decode(o, opt_payload(l), "l")
+    o.flat = [z3.If(opt_is_some(f), 1, 0), z3.If(opt_is_some(f), Yf, 0), z3.If(opt_is_some(f), Of, 0),
+              z3.If(opt_is_some(l), 1, 0), z3.If(opt_is_some(l), Yl, 0), z3.If(opt_is_some(l), Ol, 0)]
+    o.no_panic()
+    base = dayno(y.e, d.e)
+    back = ((base - 1) % 7 - st.e) % 7
+    o.reachable("first_none", z3.Not(opt_is_some(f)))
+    o.reachable("last_none", z3.Not(opt_is_some(l)))
+    o.reachable("back6", z3.And(back == 6, opt_is_some(f)))
+    o.claim("first_day", z3.And(opt_is_some(f) == (base - back >= LO), z3.Implies(opt_is_some(f), dayno(Yf, Of) == base - back)))
+    o.claim("last_day", z3.And(opt_is_some(l) == (base - back + 6 <= HI), z3.Implies(opt_is_some(l), dayno(Yl, Ol) == base - back + 6)))
+    o.claim("first_is_start_weekday", z3.Implies(opt_is_some(f), (dayno(Yf, Of) - 1) % 7 == st.e))
+
+
+def _date_add_signed_contract(sign):
+    def f(ex, st, args):
+        """contract of NaiveDate::checked_add_signed / checked_sub_signed proved by M:c03_m_date_signed"""
+        d = ex.load(st, args[0])
+        td = args[1]
+        v = td.fields[0].e * G + td.fields[1].e
+        days = tdiv(v, DAY * G)
+        Y0, O0 = ghost_or_decode(ex, d, "s")
+        tgt = dayno(Y0, O0) + sign * days
+        ok = z3.And(tgt >= LO, tgt <= HI)
+        Y, O, F, nyof = ex.fresh("Y2"), ex.fresh("O2"), ex.fresh("F2"), ex.fresh("yof2")
+        ex.side.append(z3.Implies(ok, z3.And(nyof == Y * 8192 + O * 16 + F, F >= 1, F < 16, O >= 1, O <= z3.If(is_leap(Y), 366, 365),
+                                             Y >= MINY, Y <= MAXY, dayno(Y, O) == tgt)))
+        return st, EnumV("Option", z3.If(ok, 1, 0), {1: [Agg("struct", "NaiveDate", [IntV(nyof, "i32"), IntV(Y, "i32"), IntV(O, "u32")])]})
+    return f
+
+
+def sum_date_diff(ex, st, args):
+    """contract of NaiveDate::signed_duration_since proved by M:c03_m_date_signed"""
+    a, b = ex.load(st, args[0]), ex.load(st, args[1])
+    Ya, Oa = ghost_or_decode(ex, a, "da")
+    Yb, Ob = ghost_or_decode(ex, b, "db")
+    days = dayno(Ya, Oa) - dayno(Yb, Ob)
+    return st, Agg("struct", "TimeDelta", [IntV(days * DAY, "i64"), IntV(0, "i32")])
+
+
+import importlib.util as _ilu
+_saved2 = list(_api.REGISTRY)
+_s7 = _ilu.spec_from_file_location("c07_shared_for_c03", os.path.join(os.path.dirname(__file__), "c07.py"))
+c07 = _ilu.module_from_spec(_s7)
+_s7.loader.exec_module(c07)
+_api.REGISTRY[:] = _saved2
+
+
+@obligation(prop="C03", tier="quick", timeout=900, probe="datetime_add",
+            desc="NaiveDateTime::checked_add_signed / checked_sub_signed: the time of day follows the (leap-aware) time rules and the whole-day carry moves the date by exactly that many days; the result is None exactly when that date is not representable. For a non-leap operand this is: result instant == instant +/- duration, exactly, in nanoseconds",
+            bounds="all dates x all times of day (incl. leap representations) x all in-range TimeDeltas; NaiveDate::checked_add_signed / checked_sub_signed through the contract proved by M:c03_m_date_signed; the time arithmetic is executed from the MIR")
+def c03_m_datetime_add(o):
+    o.summarize("naive::date::checked_add_signed", _date_add_signed_contract(1))
+    o.summarize("naive::date::checked_sub_signed", _date_add_signed_contract(-1))
+    y, d, date = date_input(o, "")
+    t, ts, tf = c07.time_input(o, "")
+    td, v = td_input(o, "d")
+    dt = Agg("struct", "NaiveDateTime", [date, t])
+    ra = o.call("NaiveDateTime::checked_add_signed", dt, td, name="add")
+    rs = o.call("NaiveDateTime::checked_sub_signed", dt, td, name="sub")
+    o.no_panic()
+    base = dayno(y.e, d.e)
+    flat = []
+    for nm, r, delta in (("add", ra, v), ("sub", rs, -v)):
+        some = opt_is_some(r)
+        res = opt_payload(r)
+        Yr, Or = decode(o, res.fields[0], nm)
+        rs_, rf_ = res.fields[1].fields[0].e, res.fields[1].fields[1].e
+        flat += [z3.If(some, 1, 0), z3.If(some, Yr, 0), z3.If(some, Or, 0), z3.If(some, rs_, 0), z3.If(some, rf_, 0)]
+        es, ef, ec = c07.ref_add(ts, tf, delta)
+        day = base + ec / DAY
+        o.claim(nm + "_some_iff_representable", some == z3.And(day >= LO, day <= HI))
+        o.claim(nm + "_time_and_date", z3.Implies(some, z3.And(rs_ == es, rf_ == ef, dayno(Yr, Or) == day, Or >= 1, Or <= z3.If(is_leap(Yr), 366, 365))))
+        N = (base * DAY + ts) * G + tf
+        o.claim(nm + "_exact_instant_without_leap", z3.Implies(z3.And(some, tf < G),
+                                                             z3.And((dayno(Yr, Or) * DAY + rs_) * G + rf_ == N + delta, rf_ < G)))
+    o.flat = flat
+    o.reachable("add_none", z3.Not(opt_is_some(ra)))
+    o.reachable("leap_operand", z3.And(tf >= G, opt_is_some(ra)))
+    o.reachable("negative_carry", z3.And(opt_is_some(ra), dayno(decode(o, opt_payload(ra).fields[0], "add")[0], decode(o, opt_payload(ra).fields[0], "add")[1]) < base))
+
+
+@obligation(prop="C03", tier="quick", timeout=900, probe="datetime_diff",
+            desc="NaiveDateTime::signed_duration_since is the exact signed distance: (day-number difference) days plus the (leap-aware) time-of-day difference; for non-leap operands b + (a - b) == a in nanoseconds and the sign follows the order of the two values; never panics",
+            bounds="all pairs of dates x all pairs of times of day; NaiveDate::signed_duration_since through the contract proved by M:c03_m_date_signed")
+def c03_m_datetime_diff(o):
+    o.summarize("naive::date::signed_duration_since", sum_date_diff)
+    ya, da, datea = date_input(o, "")
+    yb, db, dateb = date_input(o, "b")
+    ta, tsa, tfa = c07.time_input(o, "a")
+    tb, tsb, tfb = c07.time_input(o, "b")
+    a = Agg("struct", "NaiveDateTime", [datea, ta])
+    b = Agg("struct", "NaiveDateTime", [dateb, tb])
+    r = o.call("NaiveDateTime::signed_duration_since", a, b, name="diff")
+    adj = z3.And(r.fields[0].e < 0, r.fields[1].e > 0)
+    o.flat = [z3.If(adj, r.fields[0].e + 1, r.fields[0].e), z3.If(adj, r.fields[1].e - G, r.fields[1].e)]
+    o.no_panic()
+    val = r.fields[0].e * G + r.fields[1].e
+    days = dayno(ya.e, da.e) - dayno(yb.e, db.e)
+    o.reachable("negative", val < 0)
+    o.claim("exact_distance", val == days * DAY * G + c07.ref_pos_pair(tsa, tfa, tsb, tfb))
+    Na = (dayno(ya.e, da.e) * DAY + tsa) * G + tfa
+    Nb = (dayno(yb.e, db.e) * DAY + tsb) * G + tfb
+    o.claim("plain_difference_without_leap", z3.Implies(z3.And(tfa < G, tfb < G), val == Na - Nb))
+    o.claim("well_formed", z3.And(r.fields[1].e >= 0, r.fields[1].e < G))
+
+
+@obligation(prop="C03", tier="quick", timeout=900, probe="date_diff",
+            desc="NaiveDate::signed_duration_since(a, b) is exactly (daynumber(a) - daynumber(b)) days as a TimeDelta (so b + (a - b) == a and the sign follows the order); never panics (the `expect` on try_days is unreachable)",
+            bounds="all pairs of dates; yo_to_cycle through its proved contract")
+def c03_m_date_diff(o):
+    c01.use_cycle_contracts(o)
+    c01.periodicity(o)
+    c01.cycle_lemmas(o)
+    y, d, date = date_input(o, "")
+    y2, d2, date2 = date_input(o, "b")
+    # the code's own intermediate terms (pure calls on identical arguments give identical terms)
+    parts = []
+    for tag, dt_, yy, dd in (("", date, y, d), ("b", date2, y2, d2)):
+        yr = o.call("NaiveDate::year", o.ref(dt_), name="yr" + tag)
+        dm = o.call("div_mod_floor", yr, IntV(400, "i32"), name="dm" + tag)
+        od = o.call("NaiveDate::ordinal", o.ref(dt_), name="od" + tag)
+        c = o.call("yo_to_cycle", o.cast(dm.fields[1], "u32"), od, name="cyc" + tag)
+        e_, r_ = dm.fields[0].e, dm.fields[1].e
+        o.cut("year_split" + tag, z3.And(yy.e == 400 * e_ + r_, r_ >= 0, r_ <= 399))
+        o.use_lemma("dayno_periodic", e_, r_, dd.e)
+        o.use_lemma("cyc_bounds", r_, dd.e)
+        o.use_lemma("leap_periodic", e_, r_)
+        o.cut("cycle" + tag, z3.And(c.e == c01.cyc(r_, dd.e), dayno(yy.e, dd.e) + 365 == 146097 * e_ + c.e))
+        parts.append((e_, c.e))
+    diff = o.call("NaiveDate::signed_duration_since", date, date2, name="diff")
+    o.flat = [diff.fields[0].e, diff.fields[1].e]
+    o.no_panic()
+    o.reachable("negative", diff.fields[0].e < 0)
+    o.claim("difference_exact", z3.And(diff.fields[0].e == (dayno(y.e, d.e) - dayno(y2.e, d2.e)) * DAY, diff.fields[1].e == 0))
